@@ -835,6 +835,41 @@ class SymExec:
                     and exit_q not in self.stack and len(self.stack) < MAX_INLINE:
                 self.emit('with_enter', st, cm=cm, cm_class=cmcls)
                 v = self._inline_call(enter_q, [cm], [], item.context_expr, ('attr', fcm, '__enter__'))
+                # what __exit__ does with an exception, as far as its tests on the exception argument tell: the classes it
+                # looks for (isinstance(exc, T) / issubclass(exc_type, T)), with T read off the manager's fields
+                exit_node = self.facts.functions[exit_q].node
+                eparams = [a.arg for a in exit_node.args.args]
+                caught = []
+                fields_ = dict(fcm[2]) if len(fcm) > 2 else {}
+                for n_ in ast.walk(exit_node):
+                    if isinstance(n_, ast.Call) and isinstance(n_.func, ast.Name) and n_.func.id in ('isinstance', 'issubclass') and len(n_.args) == 2 \
+                            and isinstance(n_.args[0], ast.Name) and n_.args[0].id in eparams[1:3]:
+                        tn_ = n_.args[1]
+                        tv = None
+                        if isinstance(tn_, ast.Attribute) and isinstance(tn_.value, ast.Name) and tn_.value.id == eparams[0]:
+                            tv = fields_.get(tn_.attr)
+                        else:
+                            r_ = self.facts.resolve_expr(self.facts.functions[exit_q].module, tn_)
+                            tv = ('ref', r_[0], r_[1]) if r_[0] in ('builtin', 'ext', 'cls') else None
+                        for x_ in ([tv] if not (isinstance(tv, tuple) and tv[:1] == ('tuple',)) else list(tv[1:])):
+                            if isinstance(x_, tuple) and x_[:1] == ('ref',) and x_[1] in ('builtin', 'ext', 'cls'):
+                                caught.append((x_[1], x_[2]))
+                handlers_ = self.__dict__.setdefault('_with_handlers', {})
+                H = handlers_.setdefault(st, ast.ExceptHandler(type=None, name=None, body=[]))
+                descr_ = ((tuple(caught), H),) if caught else ()
+                if caught and self.choose(2, 'with-exc') == 1:
+                    # an exception of a class the manager looks for is raised somewhere in the body
+                    exc_ = ('exc', tuple(caught), self.fresh())
+                    self.emit('exc_edge', st, types=tuple(caught), handler=H, subs=())
+                    self.ctx.append(('finally', st))
+                    try:
+                        res_ = self._inline_call(exit_q, [cm, ('unknown', 'exc-type'), exc_, ('unknown', 'traceback')], [], st,
+                                                 ('attr', fcm, '__exit__'))
+                    finally:
+                        self.ctx.pop()
+                    if is_const(freeze(res_)) and freeze(res_)[1]:
+                        return                      # swallowed: execution continues after the with statement
+                    raise _Raise(exc_, st)
 
                 def run_exit(exc_args):
                     self.ctx.append(('finally', st))
@@ -843,7 +878,7 @@ class SymExec:
                     finally:
                         self.ctx.pop()
                 self.ctx.append(('with', fcm, st))
-                self.ctx.append(('try', st, ()))
+                self.ctx.append(('try', st, descr_))
                 try:
                     try:
                         if item.optional_vars is not None:
@@ -953,14 +988,28 @@ class SymExec:
         return handler
 
     def _handler_descr(self, st: ast.Try, fr: Frame):
+        def one(e):
+            # a name bound in an enclosing frame (a decorator factory's parameter: `except exc_type`) denotes its value there
+            if isinstance(e, ast.Name):
+                f: Optional[Frame] = fr
+                while f is not None:
+                    if e.id in f.env:
+                        v = freeze(f.env[e.id])
+                        if isinstance(v, tuple) and v[:1] == ('ref',) and v[1] in ('builtin', 'ext', 'cls'):
+                            return [(v[1], v[2])]
+                        if isinstance(v, tuple) and v[:1] == ('tuple',) and all(isinstance(x, tuple) and x[:1] == ('ref',) for x in v[1:]):
+                            return [(x[1], x[2]) for x in v[1:]]
+                        break
+                    f = f.outer
+            return [self.facts.resolve_expr(fr.module, e)]
         out = []
         for h in st.handlers:
             if h.type is None:
                 types = [('builtin', 'BaseException')]
             elif isinstance(h.type, ast.Tuple):
-                types = [self.facts.resolve_expr(fr.module, e) for e in h.type.elts]
+                types = [t for e in h.type.elts for t in one(e)]
             else:
-                types = [self.facts.resolve_expr(fr.module, h.type)]
+                types = one(h.type)
             out.append((tuple(types), h))
         return tuple(out)
 
@@ -1194,6 +1243,13 @@ class SymExec:
                 if isinstance(n, ast.Tuple) and n.elts:
                     xs = [conv(x) for x in n.elts]
                     return None if any(x is None for x in xs) else ('tuple',) + tuple(xs)
+                if isinstance(n, (ast.Name, ast.Attribute)):
+                    # a reference to a function / class / library callable: as immutable as a constant
+                    r = self.facts.resolve_expr(m, n)
+                    if r[0] in ('fn', 'cls', 'ext', 'builtin'):
+                        return ('ref', r[0], r[1])
+                    if r[0] == 'const':
+                        return ('const', r[1])
                 return None
             res = conv(node0)
             if res is not None and as_set:
@@ -1583,6 +1639,18 @@ class SymExec:
                 return ('const', bool(res))
             except Exception:
                 pass
+        # two displays of constants
+        if op in ('==', '!=') and isinstance(fl, tuple) and isinstance(fr_, tuple) and fl[:1] == fr_[:1] and fl[:1] in (('list',), ('tuple',)) \
+                and all(is_const(x) for x in fl[1:]) and all(is_const(x) for x in fr_[1:]):
+            return ('const', ([x[1] for x in fl[1:]] == [x[1] for x in fr_[1:]]) == (op == '=='))
+        # membership of a constant in a module-level dispatch / value table
+        if op in ('in', 'not in') and is_const(fl) and isinstance(fr_, tuple) and fr_[:2] == ('ref', 'modvar'):
+            try:
+                hit = self.modvar_table_entry(fr_[2], fl[1])
+            except Exception:
+                hit = None
+            if hit is not None:
+                return ('const', bool(hit[0]) == (op == 'in'))
         # membership of a constant in a display of constants
         if op in ('in', 'not in') and is_const(fl) and isinstance(fr_, tuple) and fr_ and fr_[0] in ('tuple', 'set', 'list') \
                 and all(is_const(x) for x in fr_[1:]):
@@ -1992,6 +2060,13 @@ class SymExec:
                 return ListVal([], self.fresh())
             if name == 'dict' and not args and not kwargs:
                 return DictVal([], self.fresh())
+            if name == 'dict' and not args and kwargs and all(isinstance(k, str) for k, _ in kwargs):
+                return DictVal([(('const', k), v) for k, v in kwargs], self.fresh())       # dict(a=1, b=2)
+            if name == 'dict' and len(args) == 1 and isinstance(args[0], DictVal) and all(isinstance(k, str) for k, _ in kwargs):
+                return DictVal(list(args[0].items) + [(('const', k), v) for k, v in kwargs], self.fresh())
+            if name == 'getattr' and len(args) == 2 and not kwargs and is_const(freeze(args[1])) and isinstance(freeze(args[1])[1], str) \
+                    and isinstance(freeze(args[0]), tuple) and freeze(args[0])[:1] == ('ref',):
+                return self.attr(args[0], freeze(args[1])[1], node, fr)          # getattr(str, 'lower') is str.lower
             if name == 'range' and args and all(is_const(a) and isinstance(a[1], int) for a in args) \
                     and len(range(*[a[1] for a in args])) <= 16:
                 return ListVal([('const', i) for i in range(*[a[1] for a in args])], self.fresh())
@@ -2075,6 +2150,36 @@ class SymExec:
                         isinstance(ff[1], tuple) and ff[1][:2] == ('ref', 'cls')):
                     bind_args = [ff[1][3] if ff[1][:1] == ('super',) else ff[1]] + bind_args
                 v = self.call(w, bind_args, kwargs, node, fr)
+                eid_holder.d['result'] = v
+                return v
+            finally:
+                self.stack.pop()
+        elif resolved and self.inline and resolved in self.facts.functions and isinstance(self.facts.functions[resolved].node, ast.FunctionDef) \
+                and _has_decorator(self.facts.functions[resolved].node, 'singledispatch') and args \
+                and ('dispatch:' + resolved) not in self.stack and len(self.stack) < MAX_INLINE:
+            # functools.singledispatch: the implementation registered for the class of the first argument, else the generic body
+            fi = self.facts.functions[resolved]
+            regs = []
+            for name_, node_ in fi.module.defs.items():
+                if not isinstance(node_, ast.FunctionDef):
+                    continue
+                for d in node_.decorator_list:
+                    if isinstance(d, ast.Call) and isinstance(d.func, ast.Attribute) and d.func.attr == 'register' and \
+                            isinstance(d.func.value, ast.Name) and d.func.value.id == fi.node.name and len(d.args) == 1:
+                        regs.append((node_.lineno, d.args[0], fi.module.name + '.' + name_))
+            eid_holder.d['inlined'] = True
+            eid_holder.d['singledispatch'] = True
+            self.stack.append('dispatch:' + resolved)
+            try:
+                mfr = Frame(fi.module, fi.module.name + '.<dispatch>', None)
+                for _, tnode, impl in sorted(regs, key=lambda r: r[0]):
+                    tref = self.ev(tnode, mfr)
+                    t_ = self.call(('ref', 'builtin', 'isinstance'), [args[0], tref], [], node, fr)
+                    if self.truth(t_, node):
+                        v = self.call(('ref', 'fnraw', impl), list(args), kwargs, node, fr)
+                        eid_holder.d['result'] = v
+                        return v
+                v = self.call(('ref', 'fnraw', resolved), list(args), kwargs, node, fr)
                 eid_holder.d['result'] = v
                 return v
             finally:
@@ -2182,6 +2287,17 @@ class SymExec:
         elif is_const(fv):
             tn = type(fv[1]).__name__
             kind = ('builtin', tn)
+        elif isinstance(fv, tuple) and fv and fv[0] == 'exc' and fv[1]:
+            # an exception known to be an instance of (one of) the listed classes
+            verdicts = []
+            for t_ in fv[1]:
+                vv = [self.exc_subclass(t_, c) for c in cs]
+                verdicts.append(True if any(x is True for x in vv) else (False if all(x is False for x in vv) else None))
+            if all(x is True for x in verdicts):
+                return True
+            if all(x is False for x in verdicts):
+                return False
+            return None
         if kind is None:
             return None
         for c in cs:
@@ -2275,6 +2391,51 @@ _orig_ex_Call = SymExec.ex_Call
 
 
 def _ex_Call(self: SymExec, e, fr):
+    if isinstance(e.func, ast.Attribute) and e.func.attr == 'update' and (len(e.args) + len(e.keywords)) >= 1:
+        recv = self.ev(e.func.value, fr)
+        if isinstance(recv, DictVal):
+            # d.update(other, k=v ...) on a dict whose entries are known: entries of known dicts are added, anything else
+            # leaves an unknown remainder
+            args = self._elts(e.args, fr)
+            kwargs = []
+            for kw in e.keywords:
+                v = self.ev(kw.value, fr)
+                kwargs.append((kw.arg, v))
+            self.emit('call', e, func=('attr', freeze(recv), 'update'), args=tuple(freeze(a) for a in args),
+                      kwargs=tuple((k, freeze(v)) for k, v in kwargs), resolved=None, handlers=self._handlers(), result=('const', None),
+                      inlined=False, on_fresh_dict=True)
+            for a in args:
+                if isinstance(a, DictVal):
+                    recv.items.extend(a.items)
+                else:
+                    recv.items.append(('dstar', freeze(a)))
+            for k, v in kwargs:
+                if k is None:
+                    if isinstance(v, DictVal):
+                        recv.items.extend(v.items)
+                    else:
+                        recv.items.append(('dstar', freeze(v)))
+                else:
+                    recv.items.append((('const', k), v))
+            return ('const', None)
+    if isinstance(e.func, ast.Attribute) and e.func.attr in ('index', 'count') and len(e.args) == 1 and not e.keywords:
+        recv = self.ev(e.func.value, fr)
+        spine = recv.elts if isinstance(recv, ListVal) and recv.concrete() else (
+            list(recv[1:]) if isinstance(recv, tuple) and recv[:1] == ('tuple',) else None)
+        if spine is not None and all(is_const(freeze(x)) for x in spine):
+            a0 = self.ev(e.args[0], fr)
+            if is_const(freeze(a0)):
+                vals = [freeze(x)[1] for x in spine]
+                if e.func.attr == 'count':
+                    return ('const', vals.count(freeze(a0)[1]))
+                if freeze(a0)[1] in vals:
+                    return ('const', vals.index(freeze(a0)[1]))
+                exc = ('call', self.fresh(), ('ref', 'builtin', 'ValueError'), (), ())
+                self.emit('raise', e, exc=exc, implicit=True)
+                raise _Raise(exc, e)
+        func = self.attr(recv, e.func.attr, e.func, fr)
+        args = self._elts(e.args, fr)
+        return self.call(func, args, [], e, fr)
     if isinstance(e.func, ast.Attribute) and e.func.attr in ('append', 'extend', 'insert'):
         recv = self.ev(e.func.value, fr)
         if isinstance(recv, ListVal):
@@ -2386,9 +2547,13 @@ def exec_module_body(F, m):
                 qual = m.name + '.' + st.name
                 if se.package_decorators(m, st):
                     cur = ('ref', 'fnraw', qual)
+                    origin = F.__dict__.setdefault('_closure_origin', {})
                     for d in reversed(se.package_decorators(m, st)):
                         dec = se.ev(d, fr)
                         cur = se.call(dec, [cur], [], d, fr)
+                        if isinstance(cur, Closure):
+                            origin[cur.cid] = qual       # a wrapper standing for the def that is being decorated
+                    fr.env[st.name] = cur
                 continue
             se.exec_stmt(st, fr)
         except (Unrecognised, _Signal, _NeedMoreChoices):
